@@ -64,8 +64,9 @@ ScLarge == { [x EXCEPT !.large = TRUE] : x \in Framed("identity", FALSE, TRUE, D
 ScC12S1 == ScC12 \cup ScLarge
 ScC13S1 == ScC13 \cup ScLarge
 JustPW == {"PiecewiseReadHidesCut"}
+JustSLP == {"SizeLinePrefixAccepted"}
 
-AllDamage == {"none", "cut", "badsize", "negsize", "emptysize", "corrupt"}
+AllDamage == {"none", "cut", "badsize", "negsize", "emptysize", "junksize", "corrupt"}
 OnlyNone == {"none"}
 AllApis == {"reads", "stream", "chunked", "iter", "preload"}
 ReadsOnly == {"reads"}
